@@ -100,13 +100,17 @@ func newStubImporter() *stubImporter {
 	method(p, bst, "ReadBits", []types.Type{u64, errT}, in)
 	method(p, bst, "WriteBit", nil, bl)
 	method(p, bst, "WriteBits", nil, u64, in)
+	fn(p, "NewBStreamWriter", false, types.NewPointer(bst), byt)
+	fn(p, "NewBStreamReader", false, types.NewPointer(bst), bs)
 	// container/list: abstract
 	p = mk("container/list", "list")
-	elT := named(p, "Element", types.NewStruct(nil, nil))
+	elT := named(p, "Element", strct(p, "Value", anyT))
 	lst := named(p, "List", types.NewStruct(nil, nil))
 	method(p, lst, "PushBack", []types.Type{types.NewPointer(elT)}, anyT)
 	method(p, lst, "Remove", []types.Type{anyT}, types.NewPointer(elT))
 	method(p, lst, "Len", []types.Type{in})
+	method(p, lst, "Back", []types.Type{types.NewPointer(elT)})
+	method(p, lst, "Front", []types.Type{types.NewPointer(elT)})
 	// github.com/gcash/bchutil: type Amount int64
 	p = mk("github.com/gcash/bchutil", "bchutil")
 	named(p, "Amount", types.Typ[types.Int64])
@@ -142,8 +146,8 @@ type mtype struct {
 	k     mkind
 	w     int
 	elem  *mtype
-	str   bool // string (immutable)
-	sized bool // int8/int16/int32/int64: arithmetic wraps (int does not)
+	str   bool   // string (immutable)
+	sized bool   // int8/int16/int32/int64: arithmetic wraps (int does not)
 	abs   string // name of the abstract type
 }
 
@@ -160,7 +164,7 @@ func (t mtype) coq() string {
 	case mUnit:
 		return "unit"
 	case mAbs:
-		return t.abs
+		return t.abs + "_t"
 	}
 	return "?"
 }
@@ -209,8 +213,8 @@ func isErrorType(t types.Type) bool {
 // the generated definition (state-passing for the mutating ones).
 var abstractStructs = map[string]bool{
 	"github.com/kkdai/bstream.BStream": true,
-	"container/list.List":             true,
-	"container/list.Element":          true,
+	"container/list.List":              true,
+	"container/list.Element":           true,
 }
 
 // methods of abstract struct types that do not change the object (all others are taken to mutate it);
@@ -305,9 +309,10 @@ type fsig struct {
 	fallible bool // Coq result type is res
 	fuel     bool
 	consumes []bool // parameter i is used as the base of an append (result may share its array)
+	nGo      int    // number of results of the Go function (the written fields follow them)
 	wfieldTy map[string]mtype
-	absTypes []string   // abstract types (implicit type parameters)
-	absMeths []absMeth  // their methods used (function parameters), in order of first use
+	absTypes []string  // abstract types (implicit type parameters)
+	absMeths []absMeth // their methods used (function parameters), in order of first use
 }
 
 type absMeth struct {
